@@ -1,4 +1,5 @@
 import CoxeterVerif.Vec
+import CoxeterVerif.Model.ChainCheck
 /-!
   Model of `compute_form_factor_amplitude` of
   `coxeter/shapes/sphere.py`, `polygon.py`, `polyhedron.py` (as the code is NOW, after the
@@ -13,6 +14,16 @@ import CoxeterVerif.Vec
   * `np.argmax`         returns the FIRST index of the maximum;
   * `np.exp(-1j*x)`     is  `cos x - i sin x`.
   The batch versions mirror the mask structure `ff[zero] = …; ff[~zero] = …` of the Python.
+
+  Argument glue (`QArg`, `…Call`): what the three methods do with the `q` argument as Python passes it
+  (an `(N,3)` array, a bare `(3,)` array, nested / flat Python lists) and with the optional `density`:
+  * `Sphere` starts with `np.atleast_2d(q)`, so every form is accepted and a `(3,)` vector is a batch of one;
+  * `Polygon` indexes `np.dot(q, normal)[:, np.newaxis]`: a `(3,)` vector makes the dot product a scalar
+    → `IndexError`; nested lists work (`np.dot` / `q - array` convert);
+  * `Polyhedron` evaluates `q * q` first: Python lists → `TypeError`; a `(3,)` array gives scalar
+    `q_sqs` / `zero_q`, `q[~zero_q]` is `q[np.True_]` (shape `(1,3)`) or `q[np.False_]` (shape `(0,3)`):
+    the non-zero case broadcasts the single amplitude into all `len(q) = 3` slots, the zero case fails in
+    the face polygon with a broadcasting `ValueError`.
 -/
 
 /-- complex number as a pair -/
@@ -202,5 +213,81 @@ def sphereFFBatch (r : α) (c : V3 α) (qs : List (V3 α)) (density : α) : List
     (lit 4 * Scalar.pi * r * (npSinc (qr / Scalar.pi) - Scalar.cos qr)) / qsq
   let amps := scatter (sphereVolume r) zero vals
   List.zipWith (fun v qv => Cx.mul (Cx.ofReal v) (Cx.smul density (Cx.expNegI (V3.dot qv c)))) amps qs
+
+/-! ### argument glue -/
+
+/-- the `q` argument as Python passes it -/
+inductive QArg (α : Type) where
+  /-- `np.ndarray` of shape `(N,3)` -/
+  | arr2 (qs : List (V3 α))
+  /-- `np.ndarray` of shape `(3,)` -/
+  | arr1 (q : V3 α)
+  /-- nested Python list `[[x,y,z], …]` -/
+  | list2 (qs : List (V3 α))
+  /-- flat Python list `[x,y,z]` -/
+  | list1 (q : V3 α)
+
+/-- `density=1.0` default -/
+def densityArg (density : Option α) : α := density.getD (lit 1)
+
+/-- `Polygon.compute_form_factor_amplitude(q, density)` with the argument as passed -/
+def polygonCall (vs : List (V3 α)) (n : V3 α) (qa : QArg α) (density : Option α) :
+    Except String (List (Cx α)) :=
+  match qa with
+  | .arr2 qs | .list2 qs => .ok (polygonFFBatch vs n qs (densityArg density))
+  | .arr1 _ | .list1 _ => .error "IndexError"
+
+/-- `Polyhedron.compute_form_factor_amplitude(q, density)` with the argument as passed -/
+def polyhedronCall (faces : List (Face α)) (volume : α) (qa : QArg α) (density : Option α) :
+    Except String (List (Cx α)) :=
+  match qa with
+  | .arr2 qs => .ok (polyhedronFFBatch faces volume qs (densityArg density))
+  | .arr1 qv =>
+    if isCloseZero (V3.dot qv qv) then .error "ValueError"
+    else
+      let f := polyhedronFF faces volume qv (densityArg density)
+      .ok [f, f, f]
+  | .list2 _ | .list1 _ => .error "TypeError"
+
+/-- `Sphere.compute_form_factor_amplitude(q, density)`: `q = np.atleast_2d(q)` first -/
+def sphereCall (r : α) (c : V3 α) (qa : QArg α) (density : Option α) : Except String (List (Cx α)) :=
+  match qa with
+  | .arr2 qs | .list2 qs => .ok (sphereFFBatch r c qs (densityArg density))
+  | .arr1 qv | .list1 qv => .ok (sphereFFBatch r c [qv] (densityArg density))
+
+/-! ### triangulation certificate -/
+
+/-- the triangle fan `(v0, a_i, a_{i+1})` over the vertices after the first -/
+def fanTris (v0 : V3 α) : List (V3 α) → List (Tri α)
+  | a :: b :: l => ⟨v0, a, b⟩ :: fanTris v0 (b :: l)
+  | _ => []
+
+/-- the fan of a vertex list from its first vertex -/
+def fanOf : List (V3 α) → List (Tri α)
+  | v0 :: rest => fanTris v0 rest
+  | [] => []
+
+/-- the fan triangles of a face as the Python sees it (`vertices[face]`) -/
+def faceTris (f : Face α) : List (Tri α) := fanOf f.verts
+
+/-- the fan-triangulated surface of a face list -/
+def surfaceOf (faces : List (Face α)) : List (Tri α) := faces.flatMap faceTris
+
+/-- the fan-triangulated surface of a list of faces given by their vertex lists (`vertices[face]`) -/
+def surfaceOfVerts (fs : List (List (V3 α))) : List (Tri α) := fs.flatMap fanOf
+
+/-- **closed-surface certificate**: the directed edges of the fan triangles of all faces cancel in pairs
+(exact test on the implementation's own `vertices[face]`; the driver runs it over `ℚ`). -/
+def surfaceClosedCheck (fs : List (List (V3 α))) : Bool := ChainCheck.closedCheck (surfaceOfVerts fs)
+
+/-- the directed boundary edges of a triangle -/
+def triEdgesOf (t : Tri α) : List (V3 α × V3 α) := ChainCheck.edgesOf t
+
+/-- **certificate checker**: the polygon's directed edge cycle minus the boundaries of the triangles `Ts`
+cancels in pairs, i.e. `Ts` is a triangulation of the polygon as far as the boundary is concerned
+(exact test; the driver runs it over `ℚ` on the implementation's own vertices). -/
+def triangulationCheck (vs : List (V3 α)) (Ts : List (Tri α)) : Bool :=
+  let E := edgesOf vs ++ (Ts.flatMap triEdgesOf).map Prod.swap
+  ChainCheck.cancelEdges E.length E
 
 end FF
